@@ -66,7 +66,11 @@ CLAIMS.update({
          "every fault plan - the answer is the digest of all bytes fed (declared integrity for keyed writers), the "
          "content path exists, the store is valid, and the key's bucket is the old bytes plus the whole new record with "
          "that integrity and byte count; reading that state back by address and by key yields exactly the data (given a "
-         "non-colliding digest on the two strings involved; the record-codec laws are proved, read_back_by_key_cacache). Correspondence: all write "
+         "non-colliding digest on the two strings involved; the record-codec laws are proved, read_back_by_key_cacache). "
+         "END TO END (write_then_read_by_key, faulty_write_then_read_by_key, write_hash_then_read): for every flavour, key, "
+         "well-formed options, chunking and initial state with a valid store - if the write answers ok (healthy run or any "
+         "fault plan), the answer is the digest of the bytes fed and read-by-key and read-by-address in the resulting state "
+         "return exactly those bytes (hypotheses: a regular file sits at the address, the digest does not collide on it). Correspondence: all write "
          "entry points x sizes x chunkings x algorithms against the model, hashlib monitor on addresses and read-back.",
     note=TB + "`_partial`: that a healthy run DOES answer ok on every healthy filesystem is exercised by the correspondence "
          "only. The record codec's round trip is a theorem (Lemmas/JsonRT, Lemmas/Record, Lemmas/CodecLaws) for records "
@@ -88,7 +92,12 @@ CLAIMS.update({
          "byte (or failing after any partial write), the key's bucket is the old bytes plus a PREFIX of the one new "
          "frame and the content store is valid; for any such prefix every reader decodes exactly the old records or "
          "exactly old+new (never a mixture), other keys are found as before, and after any continuation history the torn "
-         "bytes are inert; phases before the index insert never aim at the index area (content first). Tie: torn-append "
+         "bytes are inert; phases before the index insert never aim at the index area (content first). END TO END "
+         "(insert_crash_lookup, remove_crash_lookup, keyed_write_crash_lookup and their *_fault_lookup twins, for cacache's "
+         "own record format and any hash function): after a kill at ANY call of an index insertion, a removal or a whole keyed "
+         "write, torn at ANY byte - or under any fault plan - the store is valid and every lookup in the key's bucket answers "
+         "exactly as before the operation or exactly as after the complete append of its one well-formed record; keys other "
+         "than the operation's key answer as before; keyed_write_ok_is_new ties 'new' to what a successful write leaves. Tie: torn-append "
          "buckets at sampled byte lengths incl. multi-byte UTF-8 via the reference encoder, real SIGKILL sweeps with "
          "old-or-new / other-keys / visible=>readable / later-write monitors.",
     note=TB + "TornLaws.prefix_none (a strict prefix of a record line does not decode) is PROVED for the concrete codec and "
@@ -166,7 +175,9 @@ CLAIMS.update({
     text="Theorems (Props/C11): the record of a successful keyed write classifies to exactly the supplied fields; a lookup "
          "of the bucket such a write leaves returns key, integrity, explicit timestamp, size (declared, else byte count), "
          "JSON metadata (else null) and raw metadata verbatim; the default timestamp is the clock call's answer; the "
-         "record text lists the six fields in fixed order. Correspondence: type-directed JSON, 64-bit integer edges, "
+         "record text lists the six fields in fixed order; END TO END (write_then_metadata): after an ok keyed write, for every "
+         "flavour / options / chunking / initial state, the lookup returns exactly the supplied key, digest, time stamp "
+         "(explicit, else a u128 clock answer), size (declared, else byte count), JSON metadata and raw metadata. Correspondence: type-directed JSON, 64-bit integer edges, "
          "control/non-ASCII strings, 128-bit times, all byte values as raw metadata, through every write entry point and "
          "both flavours, field-by-field monitor; nesting depths around serde_json's limit (known finding F9).",
     note=TB + "the JSON half of 'returned exactly' is a theorem over the model's serde_json (Json.parse_render: every "
